@@ -1253,6 +1253,64 @@ pub fn gen_fn(rng: &mut Rng, version: u32, idx: u32, small: bool) -> GenFn {
     }
 }
 
+/// The smallest functions: two blocks (entry -> exit, one measured arc: the `blocks.len() >= 2`
+/// guard of `count_on_tree` at its boundary), one block or no block at all (below the guard: no
+/// artificial arc, no propagation); lines on the entry block now and then.
+pub fn gen_tiny_fn(rng: &mut Rng, version: u32, idx: u32) -> GenFn {
+    let nblocks: u32 = match rng.below(6) {
+        0 => 0,
+        1 | 2 => 1,
+        _ => 2,
+    };
+    let file = FILES[rng.below(2) as usize].as_bytes().to_vec();
+    let start = 10 * (idx + 1);
+    let mut arcs: Vec<(u32, u32, u32)> = Vec::new();
+    if nblocks == 2 {
+        // the virtual exit -> entry arc is the tree; the real arc carries the counter – or, now
+        // and then, the real arc is marked on-tree as well (no counter at all: not a spanning tree)
+        arcs.push((0, 1, 0));
+    }
+    let mut tree_ok = nblocks == 2;
+    if nblocks == 2 && rng.chance(1, 6) {
+        arcs[0].2 = 1;
+        tree_ok = false;
+    }
+    let mut lines = Vec::new();
+    if nblocks >= 1 && rng.chance(2, 3) {
+        lines.push((0, vec![LineItem::File(file.clone()), LineItem::Line(start), LineItem::Line(start + 1)]));
+    }
+    if nblocks == 2 && rng.chance(1, 2) {
+        lines.push((1, vec![LineItem::File(file.clone()), LineItem::Line(start + 2)]));
+    }
+    let _ = version;
+    GenFn {
+        ident: idx + 1,
+        lsum: rng.next() as u32,
+        csum: if version >= 47 { rng.next() as u32 } else { 0 },
+        name: format!("tiny{}", idx).into_bytes(),
+        file,
+        start,
+        end: start + 9,
+        nblocks,
+        block_split: vec![nblocks],
+        arcs,
+        lines,
+        tree_ok,
+        sink: if nblocks >= 2 { 1 } else { 0 },
+    }
+}
+
+/// re-spell the stamp of an encoded little-endian gcno/gcda in the letter style (`A90*` for 90,
+/// `A89*`, `A48*`): the same version number for every version below 100
+pub fn restamp_letter(b: &mut [u8], version: u32) {
+    if b.len() >= 8 && version < 100 {
+        b[4] = b'*';
+        b[5] = b'0' + (version % 10) as u8;
+        b[6] = b'0' + (version / 10) as u8;
+        b[7] = b'A';
+    }
+}
+
 /// A function in the 408* layout made of loops whose bodies have two paths (and, now and then,
 /// an inner loop or a three-way switch): every loop is `head -> {left, right} -> latch -> head`,
 /// `head -> next`. All body blocks sit on `nlines` source lines, so the multi-block line rule and
@@ -1482,6 +1540,9 @@ pub fn gen_flow_n(rng: &mut Rng, f: &GenFn, walks: u64, scale: u64, free: u32) -
     // forward skeleton: the first arc listed for a block whose target is "later" – we simply
     // fall back to the first outgoing arc that leads towards the sink by BFS distance
     let n = f.nblocks as usize;
+    if n == 0 {
+        return cnt;
+    }
     let mut dist = vec![u32::MAX; n];
     dist[f.sink as usize] = 0;
     for _ in 0..n {
